@@ -2,9 +2,12 @@ package common
 
 import (
 	"encoding/binary"
+	"sync"
+	"sync/atomic"
 )
 
 func init() {
+	vpHarnesses["vpC20_O3"] = vpC20_O3
 	vpHarnesses["vpC20_O1"] = vpC20_O1
 }
 
@@ -64,4 +67,74 @@ func vpC20_O1() {
 	vpAssert("guard bytes untouched", b1[n1] == 0 && b2[n2] == 0)
 	vpAssert("last requested bytes written", b1[n1-1] == 0xA5 && b2[n2-1] == 0xA5 && b1[0] == 0xA5 && b2[0] == 0xA5)
 	vpAssert("empty read is a no-op", func() bool { n, err := c.Read(nil); return n == 0 && err == nil && len(log.blocks) == nb1+nb2 }())
+}
+
+// vpIdCipher "encrypts" a block to itself, so that the keystream handed to a
+// reader shows which counter blocks it was made from.
+type vpIdCipher struct{}
+
+func (vpIdCipher) BlockSize() int          { return 16 }
+func (vpIdCipher) Encrypt(dst, src []byte) { copy(dst, src) }
+func (vpIdCipher) Decrypt(dst, src []byte) {}
+
+// C20-O3: two goroutines read from one generator concurrently (arbitrary
+// counter state, lengths over the block boundaries). Under every schedule
+// (bounded preemptions) there is no data race, each reader's keystream is made
+// of consecutive counter blocks, the two readers' blocks are disjoint (no
+// keystream is handed out twice) and the counter ends past both reservations.
+func vpC20_O3() {
+	start := vpUint64("counter0")
+	vpAssume(start < 1<<62)
+	lens := []int{8, 16, 24, 40}
+	n := [2]int{lens[vpChoose("n1", len(lens))], lens[vpChoose("n2", len(lens))]}
+	// natively the experiment is repeated with a start barrier, so that a schedule found
+	// symbolically has a fair chance to occur; symbolically one round covers all schedules
+	rounds := 1
+	if vpNative() {
+		rounds = 20000
+	}
+	for round := 0; round < rounds; round++ {
+		vpC20ConcurrentReads(start, n)
+	}
+}
+
+func vpC20ConcurrentReads(start uint64, n [2]int) {
+	c := &CPRNG{block: vpIdCipher{}, counter: start}
+	native := vpNative()
+	var ready int32
+	var res [2][]byte
+	var errs [2]error
+	var wg sync.WaitGroup
+	wg.Add(2)
+	for t := 0; t < 2; t++ {
+		t := t
+		go func() {
+			defer wg.Done()
+			b := make([]byte, n[t])
+			if native {
+				atomic.AddInt32(&ready, 1)
+				for atomic.LoadInt32(&ready) < 2 {
+				}
+			}
+			k, err := c.Read(b)
+			if err == nil && k != n[t] {
+				err = vpFreshError("short read")
+			}
+			res[t], errs[t] = b, err
+		}()
+	}
+	wg.Wait()
+	vpAssert("concurrent reads succeed", errs[0] == nil && errs[1] == nil)
+	var first [2]uint64
+	var nb [2]uint64
+	for t := 0; t < 2; t++ {
+		nb[t] = uint64((n[t] + 15) / 16)
+		first[t] = binary.LittleEndian.Uint64(res[t][0:8])
+		for i := uint64(0); i < nb[t]; i++ {
+			vpAssert("a reader's keystream is made of consecutive counter blocks", binary.LittleEndian.Uint64(res[t][16*i:16*i+8]) == first[t]+i)
+		}
+	}
+	vpAssert("concurrent readers never share a keystream block", first[0]+nb[0] <= first[1] || first[1]+nb[1] <= first[0])
+	vpAssert("blocks come from the reserved range", first[0] >= start && first[1] >= start && first[0]+nb[0] <= start+nb[0]+nb[1] && first[1]+nb[1] <= start+nb[0]+nb[1])
+	vpAssert("counter ends past both reservations", c.counter == start+nb[0]+nb[1])
 }
